@@ -167,8 +167,57 @@ def cmd_run(mid, tier="quick"):
     return 0
 
 
+def cmd_run_wt(mid, tier="quick"):
+    """like `run`, but against a scratch worktree of /repo (NGV_REPO): /repo itself is not touched, so this can run
+    next to other work (use from a `vp run` snapshot, whose /verif copy receives the evidence and the results)"""
+    d = os.path.join(SEEDED, mid)
+    meta = json.load(open(os.path.join(d, "meta.json")))
+    prop = meta["property"]
+    wt = tempfile.mkdtemp(prefix="mw_", dir="/tmp")
+    os.rmdir(wt)
+    rc, out = sh(["git", "-C", "/repo", "worktree", "add", "-q", "--detach", wt, "HEAD"])
+    if rc:
+        print(out)
+        return 2
+    try:
+        rc, out = sh(["git", "apply", os.path.join(d, "patch.diff")], cwd=wt)
+        if rc:
+            print(f"{mid}: patch does not apply: {out[-200:]}")
+            return 2
+        rc, out = sh([os.path.join(VERIF, "check"), prop, "--tier", tier], cwd=VERIF, timeout=7200,
+                     env=dict(os.environ, NGV_REPO=wt))
+    finally:
+        sh(["git", "-C", "/repo", "worktree", "remove", "--force", wt])
+    lines = [ln for ln in out.splitlines() if ln.startswith("VIOLATION") or ln.startswith("  ")]
+    benign = mid.endswith("-b1")
+    verdict = "caught" if rc == 1 and any(ln.startswith("VIOLATION") for ln in lines) else \
+        ("MISSED" if rc == 0 else f"error rc={rc}")
+    with_input = verdict == "caught" and "no-failing-input-found" not in " ".join(lines[:1])
+    if not benign:
+        meta.setdefault("check_results", {})[tier] = {
+            "verdict": verdict, "with_failing_input": with_input, "output": lines[:4]}
+        with open(os.path.join(d, "meta.json"), "w") as f:
+            json.dump(meta, f, indent=1)
+    tag = ("silent (ok)" if verdict == "MISSED" else "ALARM on a benign rewrite") if benign else \
+        f"{verdict}{' (failing input)' if with_input else ''}"
+    print(f"{mid} [{tier}]: {tag}", flush=True)
+    if verdict.startswith("error") or (benign and verdict != "MISSED"):
+        print(out[-600:])
+    return 0
+
+
 def main():
     a = sys.argv[1:]
+    if a[0] == "runall-wt":
+        tier = a[1] if len(a) > 1 else "quick"
+        only = a[2] if len(a) > 2 else None
+        for mid in sorted(os.listdir(SEEDED)):
+            if only and not mid.startswith(only):
+                continue
+            cmd_run_wt(mid, tier)
+        return 0
+    if a[0] == "run-wt":
+        return cmd_run_wt(a[1], a[2] if len(a) > 2 else "quick")
     if a[0] == "import":
         return cmd_import(a[1], a[2])
     if a[0] == "verify":
